@@ -62,6 +62,10 @@ class NumberField(Field):
                 "value is not a valid %s" % self.type_cls.__name__
             ) from err
 
+        if num != num:
+            # NaN compares false with every bound: it is not a number that satisfies any of them
+            raise ValueError("value is not a valid %s" % self.type_cls.__name__)
+
         if self.min is not None and num < self.min:
             raise ValueError("value must be >= %s" % self.min)
 
